@@ -831,7 +831,7 @@ ORACLES = {"round": lambda c: None, "dist": oracle_dist, "string": oracle_string
 
 
 def mile_singular(c):
-    """the case turns on the documented spelling `mile` (finding D12)"""
+    """the case turns on the documented spelling `mile` (finding D25)"""
     for key in ("s", "r", "ro", "ri"):
         v = c.get(key)
         if isinstance(v, str) and re.fullmatch(r"(\d+\.\d+|\d+|\.\d+)mile", v.replace(" ", "").lower()):
